@@ -150,3 +150,35 @@ func init() {
 		},
 	})
 }
+
+func init() {
+	register(&Property{
+		ID: "C18", Title: "Messaging adapter contract",
+		Explanation: "tbd",
+		Rules: []Rule{
+			{Name: "LIN/sendrequest", Min: 1, Run: ruleLIN(func(t linTarget) bool { return t.name == "nats.Client.SendRequest" }), Doc: "every path of SendRequest consumes the completion exactly once"},
+			{Name: "PATHS/remove-before-invoke", Min: 2, Run: ruleNatsRemoveBeforeInvoke, Doc: "pending entry removed under the lookup's lock before the completion runs"},
+			{Name: "DOM/nats-plumbing", Min: 5, Run: ruleNatsPlumbing, Doc: "control-line guards, one listener, closed handler"},
+			{Name: "DOM/loopvar", Min: 0, Run: ruleLoopVar("nats"), Doc: "deferred closures capture no shared loop variable"},
+		},
+	})
+	register(&Property{
+		ID: "C20", Title: "Fail-stop on messaging loss or Stop",
+		Explanation: "tbd",
+		Rules: []Rule{
+			{Name: "DOM/stop", Min: 6, Run: ruleStop, Doc: "ordered shutdown, cache clean-up, refusal of new connections, closed-handler plumbing"},
+		},
+	})
+	register(&Property{
+		ID: "C11", Title: "Disconnect cleanup at any moment",
+		Explanation: "tbd",
+		Rules: []Rule{
+			{Name: "DOM/dispose", Min: 6, Run: ruleDispose, Doc: "dispose set; refusal after close; Subscription.Dispose"},
+			{Name: "CTX/post-dispose", Min: 3, Run: rulePostDispose, Doc: "no request from a continuation of a disposed connection"},
+			{Name: "LIN/temp-conn", Min: 1, Run: ruleTempConn, Doc: "temporary HTTP connections disposed exactly once"},
+			{Name: "PAIR/loaded-handover", Min: 1, Run: rulePairLoaded, Doc: "late Loaded releases the cache use"},
+			{Name: "DOM/verdict-store", Min: 2, Run: ruleVerdictStore, Doc: "late access answers absorbed"},
+			{Name: "PAIR/throttle-slot", Min: 3, Run: rulePairThrottle, Doc: "a refused task does not strand a throttle slot"},
+		},
+	})
+}
